@@ -43,7 +43,10 @@ pub fn run_oligo(recs: &[Vec<u8>], k: usize, norm: bool, threads: usize, delim: 
 
 pub fn row_matches(line: &str, s: &[u8], k: usize, norm: bool, delim: &str) -> Result<(), String> {
     let (cnt, total) = counts_spec(s, k);
-    let parts: Vec<&str> = if delim.is_empty() { vec![line] } else { line.split(delim).collect() };
+    let parts: Vec<&str> = if delim.is_empty() {
+        // no delimiter: normalised values are fixed-width (8 bytes)
+        if norm && line.len() % 8 == 0 { (0..line.len() / 8).map(|i| &line[i * 8..i * 8 + 8]).collect() } else { vec![line] }
+    } else { line.split(delim).collect() };
     if parts.len() != cnt.len() { return Err(format!("row has {} values, expected {}", parts.len(), cnt.len())); }
     for (i, p) in parts.iter().enumerate() {
         let v: f64 = p.parse().map_err(|_| format!("value {:?} is not a number", p))?;
